@@ -4,7 +4,8 @@ from props.common import ALL_CODES, boot_ops, brokers, expected_code, fp, host, 
 
 SLICE = "Responses.from_protocol + per-API consultation (Client / Consumer / Producer layers)"
 RULE = ("one case per (API, wire error code, position of the failing partition); codes: every value in -1..=35 plus "
-        "36,127,128,255,256,32767,-2,-128,-129,-32768 (quick: a seeded half of them per API; thorough: all); non-trivial = the case's "
+        "36,127,128,255,256,32767,-2,-128,-129,-32768 (quick: a seeded half of them per API; thorough: all); for fetch_messages and poll also "
+        "a topic of 1100 partitions on one broker with the failing partition at positions 7 / 1024.. / last of the listing; non-trivial = the case's "
         "injected non-zero code reached the client in a reply (counted per distinct case)")
 ASSUMPTIONS = ["the reference broker (tools/cluster.py) places the injected code in the partition / group answer as the protocol guide lays it out"]
 EXHAUSTIVE = False
@@ -12,12 +13,14 @@ EXHAUSTIVE = False
 APIS = ["fetch_offsets", "list_offsets", "fetch_messages", "produce", "commit", "group_fetch_v0", "group_fetch_v1",
         "coordinator", "poll", "send"]      # plus "commit2" / "group_fetch2": two failing partitions in one answer
 T1 = b"t1"
+LONG = 1100
 
 
 def cluster_spec(layout="one"):
     # "one": t1 wholly led by broker 1; "spread": its partitions alternate between the two brokers, so that a call's answer for t1
     # is put together from two replies (the failing partition's reply may be the first or the second one processed)
-    return {"brokers": brokers(2), "topics": {T1: [1, 1, 1] if layout == "one" else [1, 2, 1], b"t2": [2]},
+    # "long": t1 has 1100 partitions on broker 1 - one reply lists more elements than any pre-allocation bound in the decoders (1024)
+    return {"brokers": brokers(2), "topics": {T1: [1] * LONG if layout == "long" else [1, 1, 1] if layout == "one" else [1, 2, 1], b"t2": [2]},
             "logs": {(T1, 0): [("plain", 0, b"k", b"v0")], (T1, 1): [("plain", 0, None, b"v1")],
                      (T1, 2): [("plain", 0, None, b"v2")], (b"t2", 0): [("plain", 0, None, b"w")]}}
 
@@ -34,7 +37,7 @@ def make_case(api, code, pos, layout="one"):
         ops.append(T("list_offsets", [[T1, b"t2"], T("earliest")]))
     elif api == "fetch_messages":
         spec["inject"] = [("fetch", T1, pos, code, -1)]
-        ops.append(T("fetch_messages", [[fp(T1, 0, 0), fp(T1, 1, 0), fp(T1, 2, 0), fp(b"t2", 0, 0)]]))
+        ops.append(T("fetch_messages", [[fp(T1, i, 0) for i in range(LONG if layout == "long" else 3)] + [fp(b"t2", 0, 0)]]))
     elif api == "produce":
         spec["inject"] = [("produce", T1, pos, code, -1)]
         ops.append(T("produce_messages", [1 if (code + pos) % 2 else -1, 1, 0, [pm(T1, 0, b"a", b"b"), pm(T1, 1, None, b"c"), pm(T1, 2, None, b"d"),
@@ -104,6 +107,11 @@ def gen(rng, tier):
                 else:
                     cases.append(make_case(api, code, pos, "one"))
                     cases.append(make_case(api, code, pos, "spread"))
+    # the failing partition far down a long listing (beyond the 1024th element), and near its start
+    for (api, code, pos) in ([("fetch_messages", 6, 1030), ("fetch_messages", 1, LONG - 1), ("poll", 6, 1050), ("fetch_messages", 9, 7)]
+                             + ([] if tier == "quick" else [("fetch_messages", 3, 1024), ("fetch_messages", 36, 1025), ("poll", 1, 1024),
+                                                            ("poll", 9, LONG - 1), ("poll", 6, 3)])):
+        cases.append(make_case(api, code, pos, "long"))
     for api in ("list_offsets_twice", "fetch_offsets_twice"):
         for code in [1, 3, 6, 9, 36, -1, 257]:
             for pos in (0, 1, 2):
@@ -165,7 +173,9 @@ def oracle(case, recs, cl):
             bad = [p for p in parts if p.args[0] == pos]
             expect(len(bad) == 1 and bad[0].args[1] == T("err", [T("kafka", [exp])]), "partition must carry kind %d and no data" % exp)
             healthy = [p for p in parts if p.args[0] != pos]
-            expect(all(p.args[1].name == "ok" and p.args[1].args[1] for p in healthy) and len(healthy) == 2, "healthy partitions must keep their data")
+            n = LONG if m.get("layout") == "long" else 3
+            expect(all(p.args[1].name == "ok" and (p.args[1].args[1] or p.args[0] > 2) for p in healthy) and len(healthy) == n - 1,
+                   "healthy partitions must keep their data")
     elif api == "produce":
         ok = res.name == "ok"
         expect(ok, "produce result must carry per-partition errors")
